@@ -12,6 +12,11 @@ pub mod c04;
 pub mod c05;
 pub mod c06;
 pub mod c07;
+pub mod c08;
+pub mod c10;
+pub mod c11;
+pub mod harvest;
+pub mod c16;
 
 pub fn run_check(id: &str, ctx: &Ctx) -> Option<Report> {
     Some(match id {
@@ -22,6 +27,10 @@ pub fn run_check(id: &str, ctx: &Ctx) -> Option<Report> {
         "C05" => c05::run(ctx),
         "C06" => c06::run(ctx),
         "C07" => c07::run(ctx),
+        "C08" => c08::run(ctx),
+        "C10" => c10::run(ctx),
+        "C11" => c11::run(ctx),
+        "C16" => c16::run(ctx),
         _ => return None,
     })
 }
@@ -36,6 +45,8 @@ pub fn own_clauses(id: &str) -> &'static [&'static str] {
         "C05" => c05::OWN,
         "C06" => c06::OWN,
         "C07" => c07::OWN,
+        "C08" => c08::OWN,
+        "C16" => c16::OWN,
         _ => &[],
     }
 }
